@@ -292,6 +292,26 @@ def real_run_stream(ctx, n_g, n_d, name="params_real_run"):
                   classify=lambda o, r: o.split()[0] + ("/ERR:pc" if r == "ERR:pc" else ""), timeout=1200)
 
 
+SETTER_EXTREMES = (1.0, 0.999, 1e6, 9.99e14, 1e15, 1.0000000000000001e15, 9.2e15, 9.223372036854775e15, 9.2233720368547e15,
+                   9.3e15, 1e16, 1e300, -1.0, 0.0, 2.5, 1234.5678, float("inf"), float("-inf"), float("nan"), -1e300,
+                   9007199254740993.0, 5e-324, 1.7976931348623157e308)
+
+
+def setter_ops(ctx):
+    """set_alpha / set_alpha_y / set_alpha_z on EVERY kind of double the public API accepts (the cast in truncate3 was
+    undefined for >= 9.2233720368547758e15, +inf and NaN before the repair recorded in KNOWN_FINDINGS.txt)"""
+    rng = ctx.rng
+    ops = []
+    for d in SETTER_EXTREMES:
+        for which in (0, 1, 2):
+            ops.append("setalpha %d %d" % (_bits(d), which))
+    for _ in range(100 if ctx.quick else 3000):
+        ops.append("setalpha %d %d" % (_bits(math.exp(rng.uniform(-2, 60))), rng.randint(0, 2)))
+    for _ in range(30 if ctx.quick else 1000):      # arbitrary bit patterns (NaN payloads, denormals, negative)
+        ops.append("setalpha %d %d" % (rng.getrandbits(64), rng.randint(0, 2)))
+    return ops
+
+
 def alphas_stream(ctx):
     """the tuning factors themselves: real get_alpha_* against the model's binary64 computation (log, clamps, truncate3)"""
     rng = ctx.rng
@@ -302,11 +322,7 @@ def alphas_stream(ctx):
             ops.append("alphas %d -1 -1 -1" % x)
     for al in [1000, 1001, 1500, 194812, 10 ** 6] + [rng.randint(1000, 10 ** 6) for _ in range(100 if ctx.quick else 3000)]:
         ops.append("maxx_bits %d" % _bits(al / 1000.0))
-    for d in (1.0, 0.999, 1e6, 9.2e15, 9.223372036854775e15, 9.2233720368547e15, 9.3e15, 1e16, 1e300, -1.0, 0.0, 2.5, 1234.5678,
-              float("inf"), float("nan"), -1e300, 9007199254740993.0):
-        ops.append("setalpha %d" % _bits(d))
-    for _ in range(100 if ctx.quick else 3000):
-        ops.append("setalpha %d" % _bits(math.exp(rng.uniform(-2, 40))))
+    ops += setter_ops(ctx)
     return Stream("alpha_factors", ops, oracle=False, classify=lambda o, r: o.split()[0] + ("/UB" if r == "UB" else ""), timeout=600)
 
 
